@@ -66,8 +66,21 @@ def run_case(case):
     if len(set(uids)) != len(uids):
         v('duplicate-uid', f'duplicate element names after design: {sorted(u for u in set(uids) if uids.count(u) > 1)[:4]}')
     # 1. amplifiers complete
+    user_typed = {e['uid'] for e in topo['elements'] if e.get('type_variety')}
     for n in net.nodes():
         amps = list(n.amplifiers.values()) if isinstance(n, Multiband_amplifier) else [n] if isinstance(n, Edfa) else []
+        if isinstance(n, Multiband_amplifier):
+            # the per-band amplifiers form the declared multi-band type, and an automatically chosen type is one that the
+            # library allows for design
+            tv = n.params.type_variety
+            lib = equipment['Edfa'].get(tv)
+            members = list(lib.multi_band) if lib is not None and lib.multi_band else []
+            got = [a.params.type_variety for a in n.amplifiers.values()]
+            if sorted(got) != sorted(members):
+                v('multiband-amplifiers-not-of-its-type', f'{n.uid}: type {tv!r} is made of {members}, per-band amplifiers {got}')
+            if n.uid not in user_typed and lib is not None and not lib.allowed_for_design:
+                v('multiband-type-not-allowed-for-design', f'{n.uid}: auto-design chose {tv!r} which is not allowed for design')
+            tags['multiband-amplifier-designed'] = 1
         for a in amps:
             tv = a.params.type_variety
             if not tv or tv not in equipment['Edfa']:
